@@ -417,7 +417,7 @@ impl<T> TapDanceEagerState<'_, T> {
     }
 
     fn incr_taps(&mut self) {
-        self.num_taps += 1;
+        self.num_taps = self.num_taps.saturating_add(1);
         self.timeout = self.orig_timeout;
     }
 }
